@@ -36,7 +36,7 @@ DTYPES = [("f32", "f32"), ("f32", "f64"), ("f64", "f64"), ("f64", "f32"), ("bf16
 AXES = {
     "beta2": [0.5, 1.0],
     "eps": [1e-1, 1e-2],
-    "inv_root_override": [0, 1, 4],
+    "inv_root_override": [0, 1, 4, [3, 1, 4]],  # list: one root per block order (orders beyond the list use the default)
     "ignored": [[], [0], [1], [0, 1], [2]],
     "graft": [None, ["adam", 0.5, 1e-1]],
     "mw": [(0.0, 0.0), (0.5, 0.5)],
@@ -81,6 +81,11 @@ def configs(tier, seed):
     for m in METHODS:
         for dt in DTYPES:
             add(mk(BASELINES[0], m, dt, seed))
+    # reduced-precision factor matrices (eigh is not implemented for bfloat16: every refresh takes the double-precision
+    # retry, and the basis is stored in the parameter's float32): eigendecomposition method only
+    for base in BASELINES:
+        add(mk(base, METHODS[0], ("f32", "bf16"), seed))
+        add(mk(dict(base, fs=(2, 2), grad_kind="table"), METHODS[0], ("f32", "bf16"), seed))
     maxdev = 1 if tier == "quick" else 2
     for bi, base in enumerate(BASELINES):
         for m in (METHODS[0], METHODS[2]) if tier == "quick" else METHODS:
@@ -119,7 +124,9 @@ def basis_oracle(cfg):
     pc = cfg["precond"][1]
     method = pc.get("method", "eigh")
     stored_dt = cfg["pdtype"]
-    cd = common.coarsest(cfg["pdtype"], cfg["prec_dtype"])
+    # precision the basis is computed in: the factor's dtype, except below float32, where the library retries in double
+    comp = cfg["prec_dtype"] if cfg["prec_dtype"] in ("f32", "f64") else "f64"
+    cd = common.coarsest(cfg["pdtype"], comp)
     u = common.UNIT[cd]
     prev = {}
 
